@@ -16,6 +16,7 @@ import tempfile
 import warnings as pywarnings
 
 from .. import env, util
+from ..model import qast
 from ..monitors import boundary
 from . import common
 
@@ -211,6 +212,108 @@ def leg_writer_protocol(ns, res, spec):
                 res.violation('py:accepted-records-not-a-prefix:' + name, '[py] records accepted before False at write %d: %r, fault-free %r (%s)' % (k, o.rows, full_rows, qtext), case)
             res.count('automaton_states:' + ('header+' if o.header_calls else '') + ('false' if k <= o0.writes else 'nofalse'))
     res.sample({'leg': 'protocol', 'shapes': [s[0] for s in SHAPES]})
+
+
+def leg_generated(ns, res, spec):
+    """The fault points of generated queries (every clause combination of the C01-C05 generators): a writer answering False at its k-th
+    write and a CSV output stream raising BrokenPipeError from its k-th write call, for every k."""
+    from . import c06
+    rng = random.Random(spec['seed'] * 2750159 + spec['i'])
+    for n in range(spec['n']):
+        case = c06.case_stream(rng, n * 7 + spec['i'])
+        ctx = qast.Ctx(case['a_names'], case['b_names'])
+        qtext = case['query_text'] = qast.render(case['q'], ctx, 'py')
+        A, B, an, bn = case['A'], case['B'], case['a_names'], case['b_names']
+        sig = common.feature_sig(case['q'])
+        o0 = boundary.run_py(ns, qtext, [list(r) for r in A], None if B is None else [list(r) for r in B], an, bn, mutating_sink=False)
+        res.count('generated_cases')
+        if o0.error is not None or o0.writes > 25:
+            res.count('generated_cases_skipped_failing_or_long')
+            continue
+        full_rows = [list(r) for r in o0.rows]
+        res.count('generated_shape:' + sig)
+        for k in range(1, o0.writes + 2):
+            o = boundary.run_py(ns, qtext, [list(r) for r in A], None if B is None else [list(r) for r in B], an, bn, false_at=k, mutating_sink=False)
+            res.evaluations += 1
+            res.count('generated_false_runs')
+            res.distinct_disjoint += 1
+            c = dict(case, leg='generated-false', k=k)
+            if o.error is not None:
+                res.violation('py:false-from-writer-raises:' + sig, '[py] writer returned False at write %d: %s raised %s' % (k, qtext, o.error_msg), c)
+                continue
+            if o.protocol_violations:
+                res.violation('py:writer-protocol:' + sig, '[py] writer returned False at write %d of %s: %r' % (k, qtext, o.protocol_violations), c)
+            if o.finishes != 1:
+                res.violation('py:finish-count:' + sig, '[py] finish called %d times (False at write %d) for %s' % (o.finishes, k, qtext), c)
+            if [list(r) for r in o.rows] != full_rows[:k - 1]:
+                res.violation('py:accepted-records-not-a-prefix:' + sig, '[py] records accepted before False at write %d: %r, fault-free %r (%s)' % (k, o.rows, full_rows, qtext), c)
+            if k <= o0.writes and o.a_reads > o0.a_reads:
+                res.violation('py:more-input-read-after-false:' + sig, '[py] %d input reads with False at write %d, %d in the fault-free run (%s)' % (o.a_reads, k, o0.a_reads, qtext), c)
+        # the same query into the CSV writer over a text stream that breaks
+        sink0 = BrokenTextSink(None)
+        exc0, _r, w0 = run_with_sink2(ns, qtext, A, B, an, bn, sink0)
+        if exc0 is not None:
+            res.count('generated_csv_fault_free_failing')      # e.g. ragged output under a header: no fault point to enumerate
+            continue
+        full = ''.join(sink0.accepted)
+        total_calls = sink0.calls
+        if total_calls > 40:
+            continue
+        for k in range(1, total_calls + 2):
+            sink = BrokenTextSink(k)
+            exc, reads_after, w = run_with_sink2(ns, qtext, A, B, an, bn, sink)
+            res.evaluations += 1
+            res.count('generated_pipe_runs')
+            res.distinct_disjoint += 1
+            c = dict(case, leg='generated-pipe', k=k)
+            if exc is not None:
+                res.violation('py:broken-pipe-escapes:' + sig, '[py] pipe broken at write %d of %d (%s): %s escaped from rbql.query: %s' % (k, total_calls, qtext, type(exc).__name__, str(exc)[:100]), c)
+                continue
+            got = ''.join(sink.accepted)
+            if not full.startswith(got):
+                res.violation('py:delivered-output-not-a-prefix:' + sig, '[py] pipe broken at write %d (%s): delivered %r is not a prefix of %r' % (k, qtext, got[-60:], full[:120]), c)
+            if sink.faulted:
+                res.count('generated_faults_triggered')
+                header_phase = o0.header is not None and k <= 2
+                if sink.calls_after_fault > (1 if header_phase else 0):
+                    res.violation('py:stream-write-after-broken-pipe:' + sig, '[py] %d further stream writes after the pipe broke at write %d (%s)' % (sink.calls_after_fault, k, qtext), c)
+                if reads_after > 1 and not header_phase:
+                    res.violation('py:input-read-after-broken-pipe:' + sig, '[py] %d input records read after the pipe broke at write %d (%s)' % (reads_after, k, qtext), c)
+        if n % 97 == 0:
+            res.sample({'leg': 'generated', 'query': qtext, 'A': A[:4], 'writes': o0.writes, 'stream_write_calls': total_calls}, limit=4)
+
+
+def run_with_sink2(ns, qtext, A, B, a_names, b_names, sink):
+    PI, PW, PR = boundary.probes(ns)
+    log = boundary.Log()
+    it = PI(ns.engine.TableIterator([list(r) for r in A], a_names), log, 'A')
+    reg = None
+    if B is not None:
+        reg = PR({'b': ([list(r) for r in B], b_names), 'B': ([list(r) for r in B], b_names)}, log)
+    real_write = sink.write
+    reads_at_fault = [None]
+
+    def spy(x):
+        try:
+            return real_write(x)
+        except BrokenPipeError:
+            if reads_at_fault[0] is None:
+                reads_at_fault[0] = it.reads
+            raise
+    sink.write = spy
+    saved_stdout = sys.stdout
+    sys.stdout = io.StringIO()
+    exc = None
+    w = None
+    try:
+        w = ns.csv.CSVWriter(sink, False, None, ',', 'quoted')
+        ns.rbql.query(qtext, it, w, [], reg)
+    except BaseException as e:   # noqa
+        exc = e
+    finally:
+        sys.stdout = saved_stdout
+    reads_after = 0 if reads_at_fault[0] is None else it.reads - reads_at_fault[0]
+    return exc, reads_after, w
 
 
 def leg_bad_bytes(ns, res, spec):
@@ -431,21 +534,22 @@ def leg_real_pipe(ns, res, spec):
 
 def plan(tier, seed):
     specs = [{'kind': 'pipe'}, {'kind': 'protocol'}, {'kind': 'bytes'}, {'kind': 'descriptors', 'n': 2 if tier == 'quick' else 20}]
+    specs += [{'kind': 'generated', 'i': i, 'n': 120 if tier == 'quick' else 2500} for i in range(6 if tier == 'quick' else 12)]
     specs.append({'kind': 'realpipe', 'n': 3 if tier == 'quick' else 5, 'cuts': [0, 10, 70000] if tier == 'quick' else [0, 1, 10, 4096, 65536, 70000, 300000]})
     return specs
 
 
 def run_shard(spec, res):
     ns = env.import_rbql()
-    {'pipe': leg_broken_pipe, 'protocol': leg_writer_protocol, 'bytes': leg_bad_bytes, 'descriptors': leg_descriptors, 'realpipe': leg_real_pipe}[spec['kind']](ns, res, spec)
+    {'pipe': leg_broken_pipe, 'generated': leg_generated, 'protocol': leg_writer_protocol, 'bytes': leg_bad_bytes, 'descriptors': leg_descriptors, 'realpipe': leg_real_pipe}[spec['kind']](ns, res, spec)
 
 
 def summarize(tier, seed, m):
     return {
-        'rule': 'fault enumeration: for each of %d query shapes (streaming, WHERE, header, UPDATE, ORDER BY, TOP, GROUP BY, DISTINCT, DISTINCT COUNT, UNNEST, multi-match JOIN, LEFT JOIN star, None output) the output stream raises BrokenPipeError at every write index k in 1..writes+1 (text sink and raw byte sink behind the writer\'s TextIOWrapper; large outputs sampled), and a user writer returns False at every k; an invalid UTF-8 sequence at every offset x 7 sequences x 5 chunk sizes; %d descriptor scenarios (success, parse / syntax / runtime / IO error, missing input, missing join table) x header flag with every file object opened by the CSV / sqlite front-ends tracked; the command line writing 30000 rows into a real OS pipe whose reader closes after N bytes (exit status 0, silent stderr, delivered bytes a prefix). distinct_nontrivial counts enumerated fault points.' % (len(SHAPES), len(DESCRIPTOR_SCENARIOS)),
+        'rule': 'fault enumeration: for each of %d query shapes (streaming, WHERE, header, UPDATE, ORDER BY, TOP, GROUP BY, DISTINCT, DISTINCT COUNT, UNNEST, multi-match JOIN, LEFT JOIN star, None output) the output stream raises BrokenPipeError at every write index k in 1..writes+1 (text sink and raw byte sink behind the writer\'s TextIOWrapper; large outputs sampled), and a user writer returns False at every k; the same two fault enumerations over generated queries of every clause combination (C01-C05 generators, random tables); an invalid UTF-8 sequence at every offset x 7 sequences x 5 chunk sizes; %d descriptor scenarios (success, parse / syntax / runtime / IO error, missing input, missing join table) x header flag with every file object opened by the CSV / sqlite front-ends tracked; the command line writing 30000 rows into a real OS pipe whose reader closes after N bytes (exit status 0, silent stderr, delivered bytes a prefix). distinct_nontrivial counts enumerated fault points.' % (len(SHAPES), len(DESCRIPTOR_SCENARIOS)),
         'exhaustive': True,
-        'required': ['broken_pipe_runs', 'broken_pipe:text', 'broken_pipe:bytes', 'faults_triggered', 'writer_protocol_runs', 'bad_byte_runs', 'bad_byte_big_runs', 'records_delivered_before_decode_error', 'descriptor_runs', 'files_tracked', 'descriptor_runs_sqlite', 'real_pipe_runs'],
-        'assumptions': ['"promptly": no further stream write and at most one further input read after the pipe broke', 'finish being (not) called on failing runs is not demanded'],
+        'required': ['generated_false_runs', 'generated_pipe_runs', 'generated_faults_triggered', 'broken_pipe_runs', 'broken_pipe:text', 'broken_pipe:bytes', 'faults_triggered', 'writer_protocol_runs', 'bad_byte_runs', 'bad_byte_big_runs', 'records_delivered_before_decode_error', 'descriptor_runs', 'files_tracked', 'descriptor_runs_sqlite', 'real_pipe_runs'],
+        'assumptions': ['"promptly": no further stream write and at most one further input read after the pipe broke', 'set_header has no return value, so a pipe that breaks while the header line is written can only be noticed at the first data write (one further write attempt tolerated in that phase only); a buffering query (aggregates, ORDER BY, DISTINCT COUNT) issues that write after it has consumed its input, so the read bound is applied to faults at data writes', 'finish being (not) called on failing runs is not demanded'],
     }
 
 
